@@ -39,6 +39,11 @@ def e1_strip_fmt(src, report):
         return "#[derive(%s)]" % ", ".join(items) if items else ""
     src, k = re.subn(r"#\[derive\(([^)]*)\)\]", fix, src)
     report["E1_derive_lists_rewritten"] = k
+    # derive(Default) on CstChildren: the ghost fields added by the contracts have no Default
+    src, k2 = re.subn(r"#\[derive\(Default\)\](\s*(?:pub\s+)?struct\s+CstChildren\b)", r"\1", src)
+    if k2 != 1:
+        raise Lost("E1: `#[derive(Default)] struct CstChildren` not found")
+    report["E1_removed_derive_default"] = ["CstChildren"]
     return src
 
 
@@ -230,6 +235,30 @@ def e10_derived_clone(src, report):
     return src
 
 
+def e12_structural(src, report):
+    """`Rule` derives PartialEq; Verus equates a derived `==` with structural equality only for
+    types that also derive its marker trait `Structural`."""
+    m = list(re.finditer(r"#\[derive\(([^)]*)\)\](\s*#\[[^\]]*\])*\s*pub\s+enum\s+Rule\b", src))
+    if len(m) != 1 or "PartialEq" not in m[0].group(1):
+        raise Lost("E12: `#[derive(.., PartialEq, ..)] pub enum Rule` not found")
+    a, b = m[0].span(1)
+    src = src[:b] + ", Structural" + src[b:]
+    report["E12_structural"] = ["Rule"]
+    return src
+
+
+def e11_children_next(src, report):
+    """`impl Iterator for CstChildren<'_> { type Item = NodeRef; fn next(..) -> Option<Self::Item> }`
+    is verified as an inherent method with the same body: a trait-impl method cannot carry the
+    precondition (the iterator invariant) that its panic-freedom depends on."""
+    m = list(re.finditer(r"impl\s+Iterator\s+for\s+CstChildren\s*<\s*'_\s*>\s*\{\s*type\s+Item\s*=\s*NodeRef\s*;\s*fn\s+next\s*\(\s*&mut\s+self\s*\)\s*->\s*Option\s*<\s*Self\s*::\s*Item\s*>", src))
+    if len(m) != 1:
+        raise Lost("E11: `impl Iterator for CstChildren` with `fn next` not found")
+    src = src[:m[0].start()] + "impl CstChildren<'_> {\n    pub fn next(&mut self) -> Option<NodeRef>" + src[m[0].end():]
+    report["E11_inherent_next"] = True
+    return src
+
+
 def extract(gen_src):
     """Returns (text, report)."""
     report = {}
@@ -241,6 +270,8 @@ def extract(gen_src):
         s = e6_pub_fields(s, report)
         s = e9_or_pattern_guard(s, report)
         s = e10_derived_clone(s, report)
+        s = e12_structural(s, report)
+        s = e11_children_next(s, report)
         s, ext = e8_ordered_choice(s, report)
     except LexError as e:
         raise Lost("lexing emitted text failed: %s" % e)
